@@ -195,7 +195,7 @@ def constructs(node, prune=None):
             yield norm_path(n["path"]), n
         elif k == "Call" and (n.get("ck") or "").startswith("Ctor"):
             yield norm_path(n.get("ctor_of") or n.get("callee")), n
-        elif k == "Path" and (n.get("rk") or "").startswith("Ctor") and "Const" in n.get("rk", ""):
+        elif k == "Path" and not n.get("inpat") and (n.get("rk") or "").startswith("Ctor") and "Const" in n.get("rk", ""):
             yield norm_path(n.get("ctor_of") or n.get("res")), n
 
 
